@@ -14,10 +14,10 @@ type PoolTx struct {
 }
 
 type poolAcct struct {
-	commit   uint64             // committed nonce known to the pool
-	next     uint64             // next nonce that may be handed to consensus
-	held     map[uint64]string  // nonce -> hash of the tx currently held for that nonce (>= commit)
-	given    map[uint64]map[string]bool // every hash ever admitted for (account, nonce)
+	commit uint64                     // committed nonce known to the pool
+	next   uint64                     // next nonce that may be handed to consensus
+	held   map[uint64]string          // nonce -> hash of the tx currently held for that nonce (>= commit)
+	given  map[uint64]map[string]bool // every hash ever admitted for (account, nonce)
 }
 
 // Pool is the sequential specification of the transaction pool, written from C18/C19.
